@@ -19,6 +19,11 @@ CLAIMS = {
   text="Machine-checked proofs over the line state machine model, for every configuration: outside a diff (before the first construct or in commit metadata) a line that begins with none of the construct-opening markers is emitted unchanged and leaves the machine where it is (C04_passthrough_line); a block of such lines extends the rendered history by exactly those lines, in order (C04_passthrough_block). On the real binary raw bytes are compared (no terminal decoding): pure text streams with embedded SGR sequences, CR variants, tabs and Unicode come out byte-identical up to the three permitted normalisations; text before diffs and commit messages between commits appear unchanged, whole-line and in order, under 18 option sets.",
   note="Trusted: Coq kernel; harness; the model does not distinguish raw from stripped lines (the byte-level claim, incl. colours, is decided on the implementation); blame-like, JSON-like and grep-like lines are construct openers and excluded from the generated text. No axioms.",
   design="§6 C04"),
+ "C09": dict(
+  technique="Coq proof (ansi_term ANSIStrings decoded by an independent SGR interpreter: every styled string shown in its style, terminal ends in the default rendition; reset-terminated lines; composition) + white-box ANSIStrings / truncate_str correspondence + terminal-state oracle at every newline of the binary's stdout",
+  text="Machine-checked proofs: for every list of styled strings ansi_term's ANSIStrings output decodes, in an independently written SGR interpreter, to exactly those strings in exactly their styles and leaves the terminal in the default rendition, from the default or from any previous rendition (C09_ansistrings_balanced, C09_strings_tail_balanced); a line ending with a reset ends in the default rendition whatever precedes (background fill, C09_reset_terminated); balanced pieces compose (C09_balanced_concat). Tie: ANSIStrings through the hook driver equals the extracted model byte for byte on random multi-segment lines; truncate_str through the driver keeps every escape sequence whole with the cut at every offset. Oracle: an independent terminal model is stepped over the binary's stdout for generated diffs (incl. raw lines carrying balanced SGR / OSC 8 sequences longer than the panel or max-line-length) under 22 mode sets, on a pipe and on a pty: at every newline the rendition is the default, no OSC 8 link is open and no sequence is cut.",
+  note="Trusted: Coq kernel; Python terminal model as observer; hook driver. The escape-sequence iterator (truncation, wrapping) is covered by correspondence and the oracle, its Coq model belongs to C03/C08. No axioms.",
+  design="§6 C09"),
  "C10": dict(
   technique="Coq proof (section reset, output never read back: prepend commutes with every step, end-of-input mirrors the section boundary) + black-box concatenation law on all ordered pairs of section kinds + repeated-run determinism",
   text="Machine-checked proofs over the line state machine model: a `diff ` line resets every per-file field to a function of that line alone, from any state (C10_section_reset); prepending anything to the written output commutes with every step, so earlier sections cannot influence later ones through the output (C10_never_reads_output); end of input flushes exactly what the next section boundary flushes (C10_eof_mirrors_boundary). On the real binary: stdout(A++B[++C]) = stdout(A)++stdout(B)[++stdout(C)] bytewise for every ordered pair of 13 section kinds x kind of last line x same/different paths x modes (unified, side-by-side, line numbers, decorations, navigate) and random longer sequences; byte-identical output over repeated runs under gitconfigs that exercise hash-map iteration, incl. --show-config.",
